@@ -32,12 +32,17 @@ type c11Case struct {
 	// Reset: the view is wrapped once with the exported WithHardlinkReset and that one value is walked and
 	// then transferred twice (a retry, or one context sent to two receivers)
 	Reset bool `json:"reset,omitempty"`
+	// FollowEmpty: FollowPaths present but empty
+	FollowEmpty bool `json:"followempty,omitempty"`
 }
 
 func (c c11Case) String() string {
 	s := fmt.Sprintf("tree=%s include=%q exclude=%q follow=%q under=%s", c.Tree, c.Include, c.Exclude, c.Follow, c.Under)
 	if c.Reset {
 		s += " reset+reuse"
+	}
+	if c.FollowEmpty {
+		s += " follow=[](empty, not nil)"
 	}
 	return s
 }
@@ -109,6 +114,9 @@ func buildView(c c11Case, dir string) (fsutil.FS, string, error) {
 		return out
 	}
 	opt := &fsutil.FilterOpt{IncludePatterns: pre(c.Include), ExcludePatterns: pre(c.Exclude), FollowPaths: pre(c.Follow)}
+	if c.FollowEmpty {
+		opt.FollowPaths = []string{}
+	}
 	v, err := fsutil.NewFilterFS(base, opt)
 	return v, prefix, err
 }
@@ -515,6 +523,17 @@ func runC11(r *evid.Run) {
 				for _, under := range []string{"disk", "mem", "filter"} {
 					cases = append(cases, c11Case{Tree: deep, Include: in, Exclude: ex, Under: under})
 				}
+			}
+		}
+		// an excluded directory with exceptions in several of its sub-directories, in both orders; an empty follow list
+		for _, ex := range [][]string{{"a", "!a/d/v/w/h", "!a/d/v/f"}, {"a", "!a/d/v/f", "!a/d/v/w/h"}, {"**/v", "!a/d/v/g", "!v/top"}, {"a", "!a/d/v/w", "!a/d/v/g", "!c"}} {
+			for _, under := range []string{"disk", "mem"} {
+				cases = append(cases, c11Case{Tree: deep, Exclude: ex, Under: under}, c11Case{Tree: deep, Include: []string{"a", "v"}, Exclude: ex, Under: under})
+			}
+		}
+		for _, in := range patternLists(1, pats) {
+			for _, ex := range patternLists(1, pats) {
+				cases = append(cases, c11Case{Tree: deep, Include: in, Exclude: ex, Under: "mem", FollowEmpty: true})
 			}
 		}
 	}
